@@ -52,6 +52,11 @@ def c14(res, tier, seed, replay):
             runs.append({"name": f"sync-{old}-{kind}-{fl.replace(':', '_')}-{rep}", "timeout": 900,
                          "args": ["-old", old, "-kind", kind, "-big", "-fault", fl, "-seed", seed * 100 + 40 + j + 100 * rep, "-n", 1]
                                  + (["-seproot"] if (j + rep + seed) % 3 == 0 else [])})
+    # every old server leaves and three new ones take over: records go to several destinations at once; the sender
+    # towards one of them is slow (hook H4b) while the others finish and clean up behind themselves
+    for j in range(2 if tier == "quick" else 8):
+        runs.append({"name": f"sync-scatter-records_slow-{j}", "timeout": 900,
+                     "args": ["-old", 1 + j % 2, "-kind", "scatter", "-fault", "records:0:sleep", "-seed", seed * 100 + 80 + j, "-n", 1]})
     results = drive_and_validate(res, runs, module="SyncTrace", cmd="sync", workers=4, invariants=())
     nf = ndied = nfailsync = 0
     distinct = set()
